@@ -22,6 +22,9 @@ def setIp (i a : Nat) : NetM Unit := fun s => .ok ((), s.setIface i (fun f => { 
 def setNcRef (i n : Nat) : NetM Unit := fun s => .ok ((), s.setIface i (fun f => { f with nc := some n }))
 /-- a nic name of the server: the id of the interface object registered under it, `none` = the empty name -/
 abbrev NicName := Option Nat
+/-- `self.interfaces["%s.%s" % (server.name, proxy_nic)]`: the object registered under the name; nothing is
+registered under the empty nic name (KeyError) -/
+def lookupNic (p : NicName) : NetM Nat := fun s => match p with | some pi => .ok (pi, s) | none => .error .keyError
 
 /-- `VMNetwork.reattach_interface` of avocado_i2n/vmnet/network.py, cut by harness/pygen_pxnet.py: the test of the proxy selection (`server_nic` is the resolved name of the pinned head); a nic name is the id of the interface registered under it, the empty name is `none` -/
 def genReattachProxySelected (r : Nat) (p : NicName) : Bool := Id.run do
@@ -63,10 +66,13 @@ def genReattachProxyPart (c : Nat) (r : Nat) (tn : Nat) (pi : Nat) : NetM (Unit)
 -/
 
 /-- the skeleton of `reattach_interface` (matched structurally): the pinned head gives the interface objects `c`,
-`r`; `proxy_interface` is None unless the selection test holds; `netconfig = ref_interface.netconfig`; the attach
+`r`; `proxy_interface` is None unless the selection test holds, then it is looked up (genReattachProxy);
+`netconfig = ref_interface.netconfig`; the attach
 part; `if proxy_interface is not None:` the proxy part; the pinned tail does not touch the registry -/
+def genReattachProxy (r : Nat) (p : NicName) : NetM (Option Nat) :=
+  if genReattachProxySelected r p then (do let pi ← lookupNic p; pure (some pi)) else pure none
 def genReattach (c r : Nat) (p : NicName) : NetM Unit := do
-  let proxy_interface : Option Nat := if genReattachProxySelected r p then p else none
+  let proxy_interface ← genReattachProxy r p
   let tn ← ncOf r
   genReattachAttach c tn
   match proxy_interface with
